@@ -411,6 +411,19 @@ pub fn run(run: &Run) {
         }
     }
     run.states_add(towers);
+    // loops followed by a tail longer than a 16-bit count can express (programs of more than 65536 instructions)
+    let tails: Vec<usize> = if thorough { vec![65_529, 65_530, 65_531, 65_532, 65_533, 65_534, 65_535, 65_536, 65_537, 131_066, 131_069, 131_071, 131_072] } else { vec![65_531, 65_534, 65_535, 65_536, 131_069] };
+    let long_tail = parking_lot::Mutex::new(0u64);
+    tails.par_iter().for_each(|tail| {
+        for head in [vec![pi(0), OpCode::Loop(1000, 2), pi(1), OpCode::Add], vec![pi(0), OpCode::Loop(30, 3), OpCode::Loop(20, 2), pi(1), OpCode::Add]] {
+            let mut p = head;
+            p.extend(std::iter::repeat(OpCode::Noop).take(*tail));
+            run.outcome(&format!("long-tail:{}", check_steps(run, &p)));
+            *long_tail.lock() += 1;
+        }
+    });
+    run.states_add(long_tail.into_inner());
+    run.set("long_tail_programs", json!({"tails": tails, "heads": ["pushi 0; loop 1000 2; pushi 1; add", "pushi 0; loop 30 3; loop 20 2; pushi 1; add"]}));
     // (ii) weighing work
     let mut weigh_cases = 0u64;
     let max_exh = if thorough { 8 } else { 6 };
